@@ -4,4 +4,5 @@ from pyvc.harness import PROPERTY_MODULES
 PROPERTY_MODULES.update({
     "C06": "contracts.C06_test_statistics",
     "C07": "contracts.C07_asymptotics",
+    "C08": "contracts.C08_hypotest",
 })
